@@ -53,3 +53,40 @@ def test_thread_payload_failure_ends_run(exc_type):
     assert not alive, "the runtime kept running after a payload raised %s" % exc_type.__name__
     assert isinstance(outcome["err"], RuntimeError)
     assert any(isinstance(c, exc_type) for c in _causes(outcome["err"]))
+
+
+@pytest.mark.parametrize("flavour_name", ["asyncio", "trio"])
+def test_payload_whose_call_raises_stopiteration_ends_run(flavour_name):
+    """calling the payload happens inside the monitor coroutine: a StopIteration it raises is caught as it is
+    (completed by the second repair for the asyncio runner)"""
+    import asyncio
+
+    import trio
+
+    flavour = {"asyncio": asyncio, "trio": trio}[flavour_name]
+    runner = ServiceRunner(accept_delay=0.05)
+    outcome = {}
+
+    def payload():
+        raise StopIteration("raised by the call itself")
+
+    runner.adopt(payload, flavour=flavour)
+
+    def run():
+        try:
+            runner.accept()
+        except BaseException as err:  # noqa
+            outcome["err"] = err
+        else:
+            outcome["err"] = None
+
+    t = threading.Thread(target=run, daemon=True)
+    t.start()
+    t.join(timeout=5)
+    alive = t.is_alive()
+    if alive:
+        runner.shutdown()
+        t.join(timeout=5)
+    assert not alive, "the runtime kept running after a payload raised StopIteration"
+    assert isinstance(outcome["err"], RuntimeError)
+    assert any(isinstance(c, StopIteration) for c in _causes(outcome["err"]))
